@@ -5,8 +5,9 @@ from .. import core, energygen, faultgen
 class C23(core.Prop):
     id = "C23"
     drivers = [faultgen.DRIVER]
-    sizes = {"quick": 300, "thorough": 10000}
+    sizes = {"quick": 500, "thorough": 10000}
     max_workers = 6
+    ready = True
     technique = ("property-based testing (Hypothesis): generated workloads with pstate changes and on/off switches on hosts / links with random "
                  "power models; reference model = the integral of the documented power function over the events of the log")
     rule = ("Host scenarios (2 of 3): host h0 with 1-4 cores, 1-3 pstates, a random wattage_per_state (2- and 3-value forms mixed, Epsilon >= Idle, "
